@@ -310,7 +310,8 @@ func shapeMain(args []string) error {
 				rng := rand.New(rand.NewSource(seed*7 + int64(fi)*131 + int64(xi)))
 				own := ownRunes(face, 4000)
 				texts := [][]rune{{0x0301, 'a', 'b'}, {0x0651, 0x0628, 0x0644}, {0x093C, 0x0915}, []rune("fi A"),
-					{0x2060, 'a', 'b', 'c'}, {'a', 0x00AD, 'b', 0x200B}, {0x200D, 0x0628, 0x200C, 0x0644}, {0xFE0F, 'x', 0x034F}}
+					{0x2060, 'a', 'b', 'c'}, {'a', 0x00AD, 'b', 0x200B}, {0x200D, 0x0628, 0x200C, 0x0644}, {0xFE0F, 'x', 0x034F},
+					{0x0628, 0x064E, 0x0628}, {0x0D15, 0x0D4E, 0x0D15}, {'a', 'b', ' ', 0x0D15, 0x0D4E, 0x0D15}}
 				for k := 0; k < 6 && len(own) > 0; k++ {
 					L := 1 + rng.Intn(8)
 					t := make([]rune, L)
@@ -323,26 +324,44 @@ func shapeMain(args []string) error {
 					hf := harfbuzz.NewFont(face)
 					for ti, text := range texts {
 						for _, dir := range []harfbuzz.Direction{harfbuzz.LeftToRight, harfbuzz.RightToLeft, harfbuzz.TopToBottom, harfbuzz.BottomToTop} {
-							for _, flags := range []harfbuzz.ShappingOptions{0, harfbuzz.Bot | harfbuzz.Eot, harfbuzz.Bot | harfbuzz.RemoveDefaultIgnorables} {
+							for _, flags := range []harfbuzz.ShappingOptions{0, harfbuzz.Bot | harfbuzz.Eot, harfbuzz.Bot | harfbuzz.RemoveDefaultIgnorables,
+								harfbuzz.ProduceUnsafeToConcat, harfbuzz.ProduceSafeToInsertTatweel | harfbuzz.ProduceUnsafeToConcat} {
 								for _, cl := range []harfbuzz.ClusterLevel{0, 1, 2} {
 									if rng.Intn(3) != 0 {
 										continue
 									}
+									// the whole text, or an item inside it (the rest is context), down to a single rune
+									start, end := 0, len(text)
+									switch rng.Intn(4) {
+									case 0:
+										if len(text) >= 3 {
+											start, end = 1, len(text)-1
+										}
+									case 1:
+										if len(text) >= 2 {
+											start = rng.Intn(len(text))
+											end = start + 1
+										}
+									}
 									var b *harfbuzz.Buffer
 									res, site := withWatchdog(20*time.Second, func() {
+										// script and language of the paragraph, as a client itemising the text would set them
+										pg := harfbuzz.NewBuffer()
+										pg.AddRunes(text, 0, len(text))
+										pg.GuessSegmentProperties()
 										b = harfbuzz.NewBuffer()
-										b.AddRunes(text, 0, len(text))
+										b.AddRunes(text, start, end-start)
 										b.Flags = flags
 										b.ClusterLevel = cl
+										b.Props = pg.Props
 										b.Props.Direction = dir
-										b.GuessSegmentProperties()
 										b.Shape(hf, nil)
 									})
 									prog := 0
 									if dir == harfbuzz.RightToLeft || dir == harfbuzz.BottomToTop {
 										prog = 1
 									}
-									ev := map[string]interface{}{"ev": "S", "id": fmt.Sprintf("%s t%d dir%d f%d cl%d", id, ti, dir, flags, cl), "api": "hb", "n": len(text), "start": 0, "end": len(text),
+									ev := map[string]interface{}{"ev": "S", "id": fmt.Sprintf("%s t%d dir%d f%d cl%d [%d,%d)", id, ti, dir, flags, cl, start, end), "api": "hb", "n": len(text), "start": start, "end": end,
 										"prog": prog, "vert": false, "side": false, "res": res, "site": site, "g": [][2]int{}, "lvl": int(cl), "npos": 0, "text": toInts(text), "flags": int(flags)}
 									if res == "ok" {
 										g := make([][2]int, len(b.Info))
